@@ -1334,3 +1334,72 @@ func (c *Ctx) rsaLimitsFromTable(gen *ast.FuncDecl, bitsP types.Object) (lo, hi 
 	// the rule reads limits as "bits < lo refused, bits > hi refused": the same convention as the switch form
 	return lo, hi, true
 }
+
+// pkgVarLiteral: the composite literal a package-level variable is initialised with, nil when it has none.
+func (c *Ctx) pkgVarLiteral(v types.Object) *ast.CompositeLit {
+	for _, f := range c.Dns.Syntax {
+		for _, d := range f.Decls {
+			gd, isGd := d.(*ast.GenDecl)
+			if !isGd {
+				continue
+			}
+			for _, sp := range gd.Specs {
+				vs, isVs := sp.(*ast.ValueSpec)
+				if !isVs {
+					continue
+				}
+				for i, nm := range vs.Names {
+					if c.Info.Defs[nm] == v && i < len(vs.Values) {
+						lit, _ := ast.Unparen(vs.Values[i]).(*ast.CompositeLit)
+						return lit
+					}
+				}
+			}
+		}
+	}
+	return nil
+}
+
+// pkgVarWritten: something in the package assigns the variable or an element of it, deletes from / clears it, or takes
+// its address.
+func (c *Ctx) pkgVarWritten(v types.Object) bool {
+	written := false
+	for _, f := range c.Dns.Syntax {
+		ast.Inspect(f, func(n ast.Node) bool {
+			switch t := n.(type) {
+			case *ast.AssignStmt:
+				for _, l := range t.Lhs {
+					x := ast.Unparen(l)
+					if ix, isIx := x.(*ast.IndexExpr); isIx {
+						x = ast.Unparen(ix.X)
+					}
+					if id, isId := x.(*ast.Ident); isId && c.Info.Uses[id] == v {
+						written = true
+					}
+				}
+			case *ast.IncDecStmt:
+				x := ast.Unparen(t.X)
+				if ix, isIx := x.(*ast.IndexExpr); isIx {
+					x = ast.Unparen(ix.X)
+				}
+				if id, isId := x.(*ast.Ident); isId && c.Info.Uses[id] == v {
+					written = true
+				}
+			case *ast.CallExpr:
+				if id, isId := ast.Unparen(t.Fun).(*ast.Ident); isId && (id.Name == "delete" || id.Name == "clear") && len(t.Args) > 0 {
+					if a, isA := ast.Unparen(t.Args[0]).(*ast.Ident); isA && c.Info.Uses[a] == v {
+						written = true
+					}
+				}
+			case *ast.UnaryExpr:
+				if t.Op == token.AND {
+					if a, isA := ast.Unparen(t.X).(*ast.Ident); isA && c.Info.Uses[a] == v {
+						written = true
+					}
+				}
+			}
+			return true
+		})
+	}
+	return written
+}
